@@ -43,7 +43,7 @@ theorem overlayIter_is_sorted_listing {V : Type} (us : List (Nat × V)) (os : Li
 
 example : overlayIter [(1, 10), (2, 20), (5, 50), (7, 70)]
     [(0, some 1), (2, none), (3, some 3), (4, none), (5, some 55), (10, some 100)]
-    = [(0, 1), (1, 10), (3, 3), (5, 55), (7, 70), (10, 100)] := by decide
+    = [(0, 1), (1, 10), (3, 3), (5, 55), (7, 70), (10, 100)] := by simp [overlayIter]
 
 theorem inv_new (root : Db) (h : Db.WF root) : Inv (new root) root :=
   ⟨swf_nil, h, h, fun _ _ => rfl⟩
@@ -144,7 +144,12 @@ theorem list_refines (o : Overlay) (ref : Db) (h : Inv o ref) (pk : PKey) (from?
         rw [this]
         cases from? <;> rfl
       | delta us =>
-        simp only [absF] at habs
+        replace habs : ∀ k, overlayGet (o.root pk) us k = SMap.get? (ref pk) k := by
+          intro k
+          rw [← habs k]
+          unfold overlayGet
+          simp only [absF]
+          cases SMap.get? us k <;> rfl
         cases from? with
         | none =>
           simp only [Db.list]
